@@ -10,6 +10,7 @@
 #include <random>
 #include <set>
 #include <sstream>
+#include <ipr/io>
 #include "world.hpp"
 
 #include "unify_interp.hpp"
@@ -247,6 +248,78 @@ namespace {
       return 0;
    }
 
+   // ---------------------------------------------------------------------------------------------
+   // spec/IprRender.tla: the text a fresh printer writes for the entity each call returned
+   int do_replay_render()
+   {
+      std::ios::sync_with_stdio(false);
+      std::string line;
+      LastBeh lastbeh;
+      long behaviours = 0, steps = 0, failed = 0, printed = 0, compared = 0;
+      std::set<std::string> classes;
+      std::map<std::string, long> fail_keys;
+      std::string sample;
+      while (std::getline(std::cin, line)) {
+         std::string text = line.rfind("<<\"BEH\"", 0) == 0 ? tlc_unescape(line) : line;
+         if (text.empty() or text[0] != '[') continue;
+         Value beh = vj::parse(text);
+         lastbeh.note(text);
+         ++behaviours;
+         if (sample.empty() or behaviours == 300) sample = text;
+         Interp in;
+         std::size_t k = 0;
+         for (auto& h : *beh.a) {
+            ++k; ++steps;
+            const Value& exp = h.at("ev");
+            Value got = in.exec(exp);
+            auto& txt = h.at("txt");
+            auto status = txt.at("s").as_str();
+            if (status == "skip") continue;
+            if (got.at("out").as_str() != "ok") continue;           // judged by IprUnify, not here
+            auto& e = in.w.ent(static_cast<int>(got.at("r").as_int()));
+            if (e.kind != vh::K_node) continue;
+            std::ostringstream os;
+            ipr::Printer pp { in.w.lex, os };
+            std::string gs = "ok";
+            try {
+               if (auto t = dynamic_cast<const ipr::Type*>(e.node)) pp << ipr::xpr_type(*t);
+               else if (auto x = dynamic_cast<const ipr::Expr*>(e.node)) pp << ipr::xpr_expr(*x);
+               else if (auto nm = dynamic_cast<const ipr::Name*>(e.node)) pp << ipr::xpr_expr(*in.w.lex.make_id_expr(*nm));   // names print through an id-expression
+               else throw vh::HarnessError(std::string("not an expression: ") + vh::cat_name(e.node->category) + " from " + exp.at("op").as_str());
+            }
+            catch (const std::logic_error&) { gs = "refused"; }
+            ++compared;
+            auto cat = std::string(vh::cat_name(e.node->category));
+            classes.insert(cat + "|" + status);
+            bool same = gs == status and (gs != "ok" or os.str() == txt.at("t").as_str());
+            if (not same) {
+               ++failed;
+               auto key = cat + ":" + (gs != status ? "outcome" : "text");
+               ++fail_keys[key];
+               if (printed++ < 30) {
+                  auto f = Value::object();
+                  auto reqs = Value::array();
+                  for (std::size_t j = 0; j < k; ++j) reqs.push((*beh.a)[j].at("ev"));
+                  auto g = Value::object();
+                  g.set("s", gs).set("t", os.str());
+                  f.set("key", key).set("step", static_cast<long>(k)).set("expected", txt).set("got", g).set("beh", reqs);
+                  std::cout << "FAIL " << vj::dump(f) << "\n";
+               }
+               break;
+            }
+         }
+      }
+      auto s = Value::object();
+      auto fk = Value::object();
+      for (auto& kv : fail_keys) fk.set(kv.first, kv.second);
+      auto cl = Value::array();
+      for (auto& c : classes) cl.push(c);
+      s.set("behaviours", behaviours).set("steps", steps).set("failed", failed).set("fail_keys", fk)
+         .set("classes", static_cast<long>(classes.size())).set("class_list", cl).set("sample", sample).set("compared", compared);
+      std::cout << "SUMMARY " << vj::dump(s) << "\n";
+      return 0;
+   }
+
    int do_script()
    {
       std::string line;
@@ -278,6 +351,7 @@ int main(int argc, char** argv)
    std::string mode = argc > 1 ? argv[1] : "";
    try {
       if (mode == "replay") return do_replay();
+      if (mode == "replay-render") return do_replay_render();
       if (mode == "record") return do_record(argc, argv);
       if (mode == "script") return do_script();
    }
